@@ -14,7 +14,8 @@ func randomSymGraph(r *rand.Rand, maxNodes, faultRate int) *sgraphCase {
 	var avail []string
 	one := []sdim{{kind: "fixed", value: 1}}
 	for i := 0; i < nIn; i++ {
-		n := fmt.Sprintf("i%d", i)
+		// declared names are in no particular (in particular: not in ascending) order
+		n := fmt.Sprintf("%c_i%d", "zqmcXB"[r.Intn(6)], i)
 		c.inputs = append(c.inputs, sinput{name: n, dims: one})
 		avail = append(avail, n)
 		if !fault(3) { // rarely: a declared input is not supplied
@@ -23,7 +24,7 @@ func randomSymGraph(r *rand.Rand, maxNodes, faultRate int) *sgraphCase {
 		}
 	}
 	for i := 0; i < nInit; i++ {
-		n := fmt.Sprintf("w%d", i)
+		n := fmt.Sprintf("%c_w%d", "ybkAr"[r.Intn(5)], i)
 		c.inits = append(c.inits, n)
 		c.initVals[n] = stens{[]int{1}, int64(2000 + r.Intn(900))}
 		avail = append(avail, n)
